@@ -630,6 +630,35 @@ def closure_sites(body, closure_key=None):
 # ------------------------------------------------------------------------------------------------
 # call graph and effects
 
+def dyn_key(ty):
+    """Normalised text of the first `dyn Trait..` object type inside a type string (binders and
+    lifetimes removed), or None."""
+    if ty is None:
+        return None
+    i = ty.find("dyn ")
+    if i < 0:
+        return None
+    rest = ty[i:]
+    depth = 0
+    out = []
+    for ch in rest:
+        if ch in "<([":
+            depth += 1
+        elif ch in ">)]":
+            if depth == 0:
+                break
+            depth -= 1
+        elif ch == "," and depth == 0:
+            break
+        out.append(ch)
+    k = "".join(out)
+    k = re.sub(r"for<[^>]*>\s*", "", k)
+    k = re.sub(r"'[a-z_0-9{}]+\s*", "", k)
+    k = re.sub(r"\s*\+\s*$", "", k.strip())
+    k = re.sub(r"\s+", " ", k)
+    return k.strip()
+
+
 class CallGraph:
     """Whole-program call graph over local bodies.
 
@@ -646,6 +675,9 @@ class CallGraph:
         self.ext = {k: [] for k in prog.bodies}       # external callee paths per body: (path, bb)
         self.addr_taken = set()
         self.indirect_sites = {k: [] for k in prog.bodies}
+        self.dyn_impls = {}          # dyn key -> set of body keys behind it
+        self.garg_fns = {}           # generic body key -> fn/closure keys passed as generic args
+        self._generic_casts = []     # (body key, dyn key) unsize casts whose source is a type parameter
         for k, b in prog.bodies.items():
             live = b.reachable()
             for i, blk in enumerate(b.blocks):
@@ -659,6 +691,14 @@ class CallGraph:
                         ck = strip_generics(rv["def"])
                         if ck in prog.bodies:
                             self.edges[k].add(ck)
+                    if rv["k"] == "cast" and "Unsize" in rv.get("cast", ""):
+                        dk = dyn_key(rv.get("ty"))
+                        if dk:
+                            srcs = [strip_generics(x) for x in rv.get("src_fns", [])]
+                            if srcs:
+                                self.dyn_impls.setdefault(dk, set()).update(x for x in srcs if x in prog.bodies)
+                            else:
+                                self._generic_casts.append((k, dk))
                     for c in rvalue_consts(rv):
                         if "fn" in c:
                             fk = strip_generics(c["fn"])
@@ -681,9 +721,13 @@ class CallGraph:
                     ps = callee_paths(t)
                     if ps:
                         self.ext[k].append((ps[0], i))
-                    if "indirect" in t or t.get("rkind") == "virtual" or ("resolved" not in t and "callee" in t and
-                                                                             re.search(r"ops::function::Fn(Mut|Once)?::call", t["callee"])):
+                    if "indirect" in t or t.get("rkind") == "virtual":
                         self.indirect_sites[k].append(i)
+                    elif "resolved" not in t and "callee" in t and re.search(r"ops::function::Fn(Mut|Once)?::call", t["callee"]):
+                        # call of a generic `F: Fn*` parameter: resolved through the generic-argument
+                        # edges added at every call site of this body (see below), unless it is a dyn object
+                        if dyn_key((t.get("arg_tys") or [""])[0]):
+                            self.indirect_sites[k].append(i)
                 # callbacks passed as generic args / fn-item constants in args
                 for g in t.get("gargs", []):
                     for kk in ("fn", "closure"):
@@ -692,6 +736,9 @@ class CallGraph:
                             if gk in prog.bodies:
                                 self.edges[k].add(gk)
                                 self.addr_taken.add(gk)
+                                if tgt is not None:
+                                    self.edges[tgt].add(gk)
+                                    self.garg_fns.setdefault(tgt, set()).add(gk)
                 for a in t["args"]:
                     c = op_const(a)
                     if c and "fn" in c:
@@ -704,10 +751,26 @@ class CallGraph:
         for k, b in prog.bodies.items():
             if b.kind == "Closure":
                 self.addr_taken.add(k)
+        for (gk, dk) in self._generic_casts:
+            self.dyn_impls.setdefault(dk, set()).update(self.garg_fns.get(gk, ()))
         for k, sites in self.indirect_sites.items():
-            if sites:
-                # an indirect call may reach any address-taken body
-                self.edges[k] |= {"<indirect>"}
+            for i in sites:
+                t = prog.bodies[k].blocks[i]["term"]
+                dk = dyn_key((t.get("arg_tys") or [""])[0]) if "indirect" not in t else None
+                cands = self.dyn_impls.get(dk) if dk else None
+                dec = strip_generics(t.get("callee", ""))
+                if "indirect" not in t and not re.search(r"ops::function::Fn(Mut|Once)?::call|future::future::Future::poll", dec) and "::" in dec:
+                    # virtual call of an ordinary trait method: every local impl of that method
+                    tr, m = dec.rsplit("::", 1)
+                    rx = re.compile(r"<.* as %s(<.*>)?>::%s" % (re.escape(tr), re.escape(m)))
+                    self.edges[k] |= {b for b in prog.bodies if rx.fullmatch(b)}
+                    continue
+                if cands:
+                    # a `dyn Trait` call reaches the bodies that were coerced to that object type
+                    self.edges[k] |= set(cands)
+                else:
+                    # unknown receiver (fn pointer, foreign dyn): any address-taken body
+                    self.edges[k] |= {"<indirect>"}
         self.edges["<indirect>"] = set(self.addr_taken)
         self.ext["<indirect>"] = []
 
@@ -828,6 +891,59 @@ def field_reads(body, field_rx):
     return out
 
 
+def decode_bytestr(pretty):
+    """Decode a pretty-printed Rust byte-string constant `b"..."` to bytes (or None)."""
+    m = re.fullmatch(r'b"(.*)"', pretty, re.S)
+    if not m:
+        return None
+    src = m.group(1)
+    out = bytearray()
+    i = 0
+    while i < len(src):
+        c = src[i]
+        if c == "\\" and i + 1 < len(src):
+            n = src[i + 1]
+            if n == "x":
+                out.append(int(src[i + 2:i + 4], 16))
+                i += 4
+                continue
+            out.append({"n": 10, "r": 13, "t": 9, "0": 0, "\\": 92, '"': 34, "'": 39}.get(n, ord(n)))
+            i += 2
+            continue
+        out.extend(c.encode("utf-8"))
+        i += 1
+    return bytes(out)
+
+
+def decode_fmt_template(bs):
+    """Decode the `format_args!` byte template of this toolchain: a length byte (< 0x80)
+    introduces a literal piece of that length; bytes >= 0x80 are placeholder opcodes
+    (0xc0 = next argument, default spec; others carry flags/precision bytes). Returns
+    [('lit', text) | ('arg', opcode_bytes)]. Best effort: unknown opcodes are kept raw."""
+    out = []
+    i = 0
+    while i < len(bs):
+        b = bs[i]
+        if b == 0:
+            break
+        if b < 0x80:
+            out.append(("lit", bs[i + 1:i + 1 + b].decode("utf-8", "replace")))
+            i += 1 + b
+        else:
+            # placeholder opcode 0xc0 | bits: 1 = 4 flag bytes, 2 = 2 width bytes, 4 = 2 precision bytes,
+            # 8 = 2 argument-index bytes (as emitted by this toolchain's format_args! lowering)
+            n = (4 if b & 1 else 0) + (2 if b & 2 else 0) + (2 if b & 4 else 0) + (2 if b & 8 else 0)
+            j = i + 1 + n
+            extra = bs[i + 1:j]
+            out.append(("arg", bytes([b]) + bytes(extra)))
+            i = j
+    return out
+
+
+def _printable(b):
+    return all(32 <= x < 127 or x in (9, 10) for x in b) and len(b) > 0
+
+
 def str_consts(body):
     """[(bb, where, string)] every string literal constant mentioned by the body."""
     out = []
@@ -841,6 +957,11 @@ def str_consts(body):
             for c in rvalue_consts(s["rv"]):
                 if "str" in c:
                     out.append((i, j, c["str"], c.get("named")))
+                elif c.get("pretty", "").startswith('b"') and s.get("macro", "").startswith("desugar:FormatLiteral"):
+                    bs = decode_bytestr(c["pretty"])
+                    if bs is not None:
+                        txt = "".join(x[1] if x[0] == "lit" else "{}" for x in decode_fmt_template(bs))
+                        out.append((i, j, txt, "format_args"))
         t = blk["term"]
         if t["t"] == "call":
             for a in t["args"]:
